@@ -519,6 +519,10 @@ Example ex_ni_rejects_srv_ok :
                     <| inds := [ex_ind 1 1 true (Some 1); ex_ind 2 1 false None; ex_ind 3 1 false None; ex_ind 4 2 false None] |>) = true.
 Proof. vm_compute. reflexivity. Qed.
 
+(* the hypotheses of the run theorems are met by runs that succeed (the four events of Servers.ex_run) *)
+Example ex_run_ni : match run_many ex_cf ex_s [ex_draws; ex_draws; ex_draws; ex_draws] with Ok s' => ni_b ex_cf s' | _ => false end = true.
+Proof. vm_compute. reflexivity. Qed.
+
 (* ---------- T2 for C05 over whole runs, in the words of the property ---------- *)
 Theorem engine_nonidle cf : forall ds s s', NIInv cf s -> run_many cf s ds = Ok s' ->
   forall k nd nc c, nth_error (nodes s') k = Some nd -> nth_error (cf_nodes cf) k = Some nc -> nc_c nc = Some c ->
